@@ -137,11 +137,12 @@ Fixpoint py_lookup (t : list (str * cval)) (e : str) : cval :=
   | (q, v) :: r => if str_eqb q e then v else py_lookup r e
   end.
 
-(* ((allowPythonPath, expression), (traversals, python results)), (real result, real number of evals) *)
-Definition chk_eval (c : ((bool * str) * (list ((str * bool) * option cval) * list (str * cval))) * (option cval * nat)) : bool :=
-  let '(((allow, e), (tr, pt)), (real, evals)) := c in
+(* (((first alternative of exists:/nocall: stripped?, allowPythonPath), expression), (traversals, python results)),
+   (real result, real number of evals) *)
+Definition chk_eval (c : (((bool * bool) * str) * (list ((str * bool) * option cval) * list (str * cval))) * (option cval * nat)) : bool :=
+  let '((((strip1, allow), e), (tr, pt)), (real, evals)) := c in
   let '(r, n) := evaluate cval cv_false cv_true cv_str (fun v => fst (snd v)) (fun v => fst (snd (snd v)))
-                          (fun v => snd (snd (snd v))) (fun v => fst v) (trav_lookup tr) (py_lookup pt)
+                          (fun v => snd (snd (snd v))) (fun v => fst v) (trav_lookup tr) (py_lookup pt) strip1
                           (S (List.length e)) allow e in
   opt_eqb cval_eqb r real && Nat.eqb n evals.
 
